@@ -98,7 +98,7 @@ func main() {
 		}
 		ex := &Explorer{prog: prog, mainPkg: mainPkg, entry: e, entryFn: fn, errorStringPtr: errStrPtr, timeType: timeType,
 			maxSteps: *maxSteps, maxDepth: 200, maxThreads: 8, maxAlloc: 1 << 18, maxConcretize: 300, defaultUnwind: *unwind,
-			tier: *tier, noMerge: *noMerge, maxPaths: *maxPaths, solverKind: *solver, solverTimeout: *timeout,
+			tier: *tier, noMerge: *noMerge, sizes: types.SizesFor("gc", "amd64"), maxPaths: *maxPaths, solverKind: *solver, solverTimeout: *timeout,
 			initPkgs: map[string]bool{"io": true, "bufio": true, "bytes": true, "errors": true, "encoding/binary": true, mlPkg: true, "github.com/google/btree": true, "hash/crc32": false, "net": false}}
 		if *budget > 0 {
 			ex.deadline = time.Now().Add(time.Duration(*budget) * time.Second)
